@@ -118,10 +118,9 @@ func TestVFChild_C14(t *testing.T) {
 			}
 		case "quit":
 			say("ok quit")
-			os.Exit(0)
+			return
 		}
 	}
-	os.Exit(0)
 }
 
 type c14Child struct {
@@ -277,7 +276,9 @@ func (c *c14Child) dump() string {
 	return string(b)
 }
 
-var c14WaitStates = regexp.MustCompile(`^goroutine \d+ \[(sync\.Mutex\.Lock|sync\.RWMutex\.R?Lock|semacquire|chan send|chan receive|select|sync\.Cond\.Wait|sync\.WaitGroup\.Wait)[,\]]`)
+// blocking primitives that do not observe the request context (a handler in `select` or in IO wait may
+// still be making progress or about to notice the cancellation: not counted)
+var c14WaitStates = regexp.MustCompile(`^goroutine \d+ \[(sync\.Mutex\.Lock|sync\.RWMutex\.R?Lock|semacquire|chan send|chan receive|sync\.Cond\.Wait|sync\.WaitGroup\.Wait)[,\]]`)
 
 // c14Parked looks for goroutines that serve `handler` (a substring of the generated gRPC handler name or
 // of the HTTP handler type) and are parked in a blocking primitive below a drand frame.
@@ -1141,10 +1142,16 @@ func (e *c14Env) probe(r *c14Req, idx int, name string) bool {
 func TestVF_C14(t *testing.T) {
 	run := vfNewRun("C14", "daemonnet")
 	var cleanups []func()
+	completed := false
 	defer func() {
 		run.Finish()
-		vfnRaceExit(t, cleanups...)
+		vfnRaceExit(completed, cleanups...)
 	}()
+	c14Body(t, run, &cleanups)
+	completed = true // not reached when the body left through t.Fatal (runtime.Goexit)
+}
+
+func c14Body(t *testing.T, run *vfRun, cleanupsP *[]func()) {
 	seed := vfSeed()
 	rng := vfNewRng(vfCaseSeed(seed, "C14", 0))
 	dir := t.TempDir()
@@ -1152,7 +1159,7 @@ func TestVF_C14(t *testing.T) {
 		dir = k
 		_ = os.MkdirAll(dir, 0o755)
 	}
-	cleanups = append(cleanups, func() {
+	*cleanupsP = append(*cleanupsP, func() {
 		if os.Getenv("VF_KEEP_DIR") == "" {
 			_ = os.RemoveAll(dir)
 		}
@@ -1260,7 +1267,7 @@ func TestVF_C14(t *testing.T) {
 		}
 	}
 	// sequences of 1-5 requests drawn from the reduced corpus, probes after the sequence
-	nseq := vfPick(40, 400)
+	nseq := vfPick(150, 1500)
 	var pool []c14Req
 	for _, st := range states {
 		pool = append(pool, w.corpus(st, rng, false)...)
